@@ -199,11 +199,15 @@ func run(c *vf.Ctx) {
 					return
 				}
 			}
+			// timestamps are set explicitly so that racy-ness never depends on kernel timestamp ticks
 			if racy {
-				if err := twin.MakeRacy(g, d); err != nil {
-					c.Broken("make racy: %v", err)
-					return
-				}
+				err = twin.MakeRacy(g, d)
+			} else {
+				err = twin.MakeNonRacy(g, d)
+			}
+			if err != nil {
+				c.Broken("set timestamps: %v", err)
+				return
 			}
 			starts = append(starts, st)
 		}
@@ -418,6 +422,7 @@ func run(c *vf.Ctx) {
 	c.Assume("an operation go-git fails with an error is not a 'successful forced checkout' and is only counted (gogit_errors_where_git_succeeded), e.g. gitlink entries without initialised submodule")
 	c.Assume("untracked paths that collide with a path of the target commit (same name, directory/file conflict) cannot survive and are not compared; pre-existing empty directories are not tracked content and are not compared")
 	c.Assume("same-size edits that also restore an mtime older than the index are excluded: only ctime/inode would reveal them and no copy preserves those; racily-clean entries (mtime >= index mtime) are generated instead")
+	c.Assume("racy-ness is constructed, never accidental: even histories get racily-clean entries (file mtime == entry mtime == index mtime, all set explicitly 50 s in the past), odd histories get entries 100 s older than the index")
 	c.Assume("cases where git itself refuses the operation are skipped")
 }
 
